@@ -312,7 +312,7 @@ fn check_roundtrip(m: &MLib, ctx: &mut Ctx) -> Result<(), String> {
 }
 
 // ---- negative messages: each mandatory sub-message removed in turn, and unsupported constructs --------------
-const FAULTS: &[&str] = &["layout outline removed", "instance location removed", "instance inner place removed", "instance cell reference removed", "reference target removed", "cut track removed", "cut cross removed", "assignment location removed", "assignment track removed", "reference to an undefined cell", "relative placement", "external reference", "outline with increasing x", "outline with decreasing y", "negative track number", "abstract outline removed", "an instantiated cell removed from the message", "cells listed users first", "every cell without instances removed"];
+const FAULTS: &[&str] = &["layout outline removed", "instance location removed", "instance inner place removed", "instance cell reference removed", "reference target removed", "cut track removed", "cut cross removed", "assignment location removed", "assignment track removed", "reference to an undefined cell", "relative placement", "external reference", "outline with increasing x", "outline with decreasing y", "negative track number", "abstract outline removed", "an instantiated cell removed from the message", "cells listed users first", "every cell without instances removed", "outline without a single step", "outline with more x than y steps", "abstract outline without a single step"];
 fn negative_case(src: &mut Src, ctx: &mut Ctx) -> Result<(), String> {
     let m = gen_lib(src);
     let lib = build(&m);
@@ -334,7 +334,8 @@ fn negative_case(src: &mut Src, ctx: &mut Ctx) -> Result<(), String> {
         Some(tet::protos::utils::reference::To::Local(n)) => Some(n.clone()),
         _ => None,
     };
-    if kind >= 16 {
+    let message_level = (16..=18).contains(&kind);
+    if message_level {
         match kind {
             16 => {
                 let used: Vec<String> = plib.cells.iter().filter_map(|c| c.layout.as_ref()).flat_map(|l| l.instances.iter().filter_map(|i| target_of(i))).collect();
@@ -360,7 +361,7 @@ fn negative_case(src: &mut Src, ctx: &mut Ctx) -> Result<(), String> {
         }
     }
     for off in 0..ncells {
-        if kind >= 16 {
+        if message_level {
             break;
         }
         let c = &mut plib.cells[(start + off) % ncells];
@@ -368,6 +369,12 @@ fn negative_case(src: &mut Src, ctx: &mut Ctx) -> Result<(), String> {
             15 => {
                 if let Some(a) = c.r#abstract.as_mut() {
                     a.outline = None;
+                    applied = true;
+                }
+            }
+            21 => {
+                if let Some(a) = c.r#abstract.as_mut() {
+                    a.outline = Some(tproto::Outline::default());
                     applied = true;
                 }
             }
@@ -420,6 +427,17 @@ fn negative_case(src: &mut Src, ctx: &mut Ctx) -> Result<(), String> {
                                 false
                             }
                         }
+                        19 => {
+                            l.outline = Some(tproto::Outline::default());
+                            true
+                        }
+                        20 => {
+                            if let Some(o) = l.outline.as_mut() {
+                                let last = *o.x.last().unwrap_or(&1);
+                                o.x.push(last);
+                            }
+                            true
+                        }
                         12 => {
                             if let Some(o) = l.outline.as_mut() {
                                 o.x = vec![3, 5];
@@ -454,7 +472,7 @@ fn negative_case(src: &mut Src, ctx: &mut Ctx) -> Result<(), String> {
     }
 }
 fn run(run: &mut Run) {
-    run.rule("Placed gridded-layout libraries: 1-5 cells forming a DAG in shuffled listing order, stepped outlines of 1-4 steps (ties allowed), 0-5 metals, instances with all four reflection combinations and arbitrary locations, arbitrary assignments and cuts, abstract views without ports; export, check cell order, import, compare every field. Negative messages: the exported message with one of 19 faults (each mandatory sub-message removed, undefined/external reference, an instantiated cell removed, cells listed users first, all leaf cells removed - the dangling reference may be in the first cell, relative placement, non-monotone outline, negative track) must be an error, not a crash. Non-trivial = >= 2 cells, a reflected instance, an assignment and a cut; distinct by hash.");
+    run.rule("Placed gridded-layout libraries: 1-5 cells forming a DAG in shuffled listing order, stepped outlines of 1-4 steps (ties allowed), 0-5 metals, instances with all four reflection combinations and arbitrary locations, arbitrary assignments and cuts, abstract views without ports; export, check cell order, import, compare every field. Negative messages: the exported message with one of 22 faults (each mandatory sub-message removed, an outline without steps or with lists of unequal length, undefined/external reference, an instantiated cell removed, cells listed users first, all leaf cells removed - the dangling reference may be in the first cell, relative placement, non-monotone outline, negative track) must be an error, not a crash. Non-trivial = >= 2 cells, a reflected instance, an assignment and a cut; distinct by hash.");
     run.assume("abstract ports are not generated: their import is todo!() and they are not in the statement's field list");
     run.min_nontrivial = 200;
     run.explore("roundtrip", run.tier.pick(500_000, 5_000_000), 500, &roundtrip_case);
